@@ -107,6 +107,9 @@ func init() {
 		"fmt.Sprint":                stubSprintf,
 		"fmt.Fprintf":               stubFprintf,
 		"errors.New":                nil, // real code
+		"github.com/paulmach/orb/encoding/mvt/vectortile.sovVectorTile": stubSov,
+		"github.com/gogo/protobuf/proto.SizeOfInternalExtension":          func(fr *frame, a []value) value { return 0 },
+		"github.com/gogo/protobuf/proto.EncodeInternalExtensionBackwards": func(fr *frame, a []value) value { return tuple{0, iface{}} },
 		"github.com/gogo/protobuf/proto.RegisterType":        stubNop,
 		"github.com/gogo/protobuf/proto.RegisterEnum":        stubNop,
 		"github.com/gogo/protobuf/proto.RegisterFile":        stubNop,
@@ -159,6 +162,24 @@ func init() {
 }
 
 func stubNop(fr *frame, a []value) value { return nil }
+
+// sovVectorTile(x) = (bits.Len64(x|1)+6)/7, the varint size: for a symbolic argument an ITE over
+// the nine thresholds (the generic encoding needs a 64-bit division by 7). Validated against the
+// real formula by harness vfC03Sov.
+func stubSov(fr *frame, a []value) value {
+	switch x := a[0].(type) {
+	case uint64:
+		return (bits.Len64(x|1) + 6) / 7
+	case sym:
+		t := bvLit(10, 64)
+		for n := 9; n >= 1; n-- {
+			t = "(ite (bvult " + x.t + " " + bvLit(uint64(1)<<(7*uint(n)), 64) + ") " + bvLit(uint64(n), 64) + " " + t + ")"
+		}
+		fr.i.pc.stats.StubsHit["model:sovVectorTile"]++
+		return sym{k: skBV, bk: types.Int, t: fr.i.pc.def(bvSort(64), t)}
+	}
+	panic(unsupported{"sovVectorTile"})
+}
 
 // sort.Slice: insertion sort that drives the real less closure (the real implementation goes
 // through reflectlite.Swapper, which is unsafe). Ties may come out in a different order than
@@ -679,6 +700,11 @@ func vfSameBits(fr *frame, a []value) value {
 	}
 	if sy, ok := y.(sym); ok && sy.k == skReal {
 		return binopS(fr, token.EQL, types.Typ[types.Float64], x, y)
+	}
+	if a, ok := intLike(pc, x); ok {
+		if b, ok := intLike(pc, y); ok {
+			return mkBool(pc, "(= "+a.bv+" "+b.bv+")")
+		}
 	}
 	if isBits(x) && isBits(y) {
 		bx := symFloat64bits(fr, []value{x})
